@@ -104,9 +104,11 @@ Definition extract_entry (o : xopts) (out : path) (e : xentry) (f : fs) : fs * b
          else
            dofs f <- replace_existing o f p;
            hard_link f (legacy_source p src) p);
-    let f := apply_perm o e f p in
-    (* set_xattrs(&path, item.xattrs()): every entry kind, the last component is not followed *)
-    if o_keep_xattr o then lset_xattrs f p (e_xattrs e) else (f, true).
+    (* set_xattrs(&path, item.xattrs()): every entry kind, the last component is not followed.  Extended attributes
+       come BEFORE owner + mode (an unprivileged user cannot put an attribute on a file whose mode has just become
+       0444); a failing set_xattrs returns before the mode is applied *)
+    dofs f <- (if o_keep_xattr o then lset_xattrs f p (e_xattrs e) else (f, true));
+    (apply_perm o e f p, true).
 
 (* run_extract_archive_reader: every entry that is not a hard link is attempted in archive order
    (a failure is reported at the end); hard links come last, only if nothing failed, and stop at the
